@@ -185,7 +185,14 @@ class ExprGen:
             m = ('field', 'm') if base is None else ('dot', base, 'm')
             return ('dot', m, 'x')
         if c == 'idx':
-            return ('idx', self.ref(NUMARR_FIELDS), ('lit', 'num', s.pick('idxlit', ('0', '1', '2'))))
+            ik = s.choose('idxkind', 5)
+            if ik <= 2:
+                ix = ('lit', 'num', s.pick('idxlit', ('0', '1', '2')))
+            elif ik == 3:
+                ix = ('bin', '-', ('call', 'len', self.ref(NUMARR_FIELDS)), ('lit', 'num', '1'))
+            else:
+                ix = ('call', s.pick('idxfun', ('abs', 'int', 'floor')), self.ref(NUM_FIELDS))
+            return ('idx', self.ref(NUMARR_FIELDS), ix)
         if c == 'const':
             return ('const', s.pick('const', ('PI', 'E')))
         return ('var', s.pick('qvar', nv))
@@ -369,10 +376,30 @@ class ExprGen:
                 return ('bin', op, a, ('lit', 'bool', s.pick('blit', ('True', 'False'))))
         return ('bin', op, a, self.boolean(d + 1))
 
+    def shifted_pair(self, a):
+        """(a op1 l1, a op2 l2): the same term shifted/scaled by literals that are equal, negatives
+        of each other, or unrelated."""
+        s = self.sim
+        l1 = self.num_lit()
+        k = s.choose('shiftrel', 4)
+        if k == 0:
+            l2 = l1
+        elif k == 1:
+            l2 = ('neglit', l1[2]) if l1[0] == 'lit' else ('lit', 'num', l1[1])
+        elif k == 2:
+            l2 = ('un', '-', l1)
+        else:
+            l2 = self.num_lit()
+        ops = ('+', '-', '*', '/')
+        return ('bin', s.pick('shop1', ops), a, l1), ('bin', s.pick('shop2', ops), a, l2)
+
     def rel(self, d):
         s = self.sim
         op = s.pick('relop', RELOPS)
         a = self.num(d + 1)
+        if s.coin('trigshift', self.trig_bias * 0.4):
+            x, y = self.shifted_pair(a)
+            return ('bin', op, x, y)
         if s.coin('trigr', self.trig_bias):
             c = s.choose('trigrkind', 4)
             if c == 0:
@@ -393,6 +420,9 @@ class ExprGen:
             return ('bin', op, self.str_leaf(), self.str_leaf())
         g = self.num if kind == 'num' else self.boolean
         a = g(d + 1)
+        if kind == 'num' and s.coin('trigshifte', self.trig_bias * 0.6):
+            x, y = self.shifted_pair(a)
+            return ('bin', op, x, y)
         if s.coin('trige', self.trig_bias):
             c = s.choose('trigekind', 6)
             if c == 0:
@@ -773,7 +803,10 @@ class PropGen:
                      allow_consts=self.allow_consts)
         t = eg.boolean(0)
         if t[0] == 'lit':
-            return None
+            # `{ True }` / `{ False }` are legal and give vacuous predicates
+            return t if s.coin('keepvacuous', 0.5) else None
+        if s.coin('vacuouspred', 0.04):
+            return ('lit', 'bool', s.pick('vacv', ('True', 'False')))
         if visible and s.coin('useref', 0.5):
             al = s.pick('refalias', visible)
             t = ('bin', 'and', t, ('bin', s.pick('refop', RELOPS + EQOPS), ('field', 'x'),
@@ -852,6 +885,26 @@ HPL_TOKENS = ('globally', 'after', 'until', 'some', 'no', 'causes', 'requires', 
 
 def tokenize(text):
     return TOKEN_RE.findall(text)
+
+
+SIBLINGS = (('x', 'y', 'k'), ('p', 'q', 'ok'), ('xs', 'bs'), ('a', 'b', 'c', 'd', 'e', 'f'), ('0', '1', '2', '3'),
+            ('@A', '@B'), ('abs', 'floor', 'ceil', 'int'), ('len', 'sum', 'max', 'min'), ('<', '<=', '>', '>='),
+            ('and', 'or'), ('forall', 'exists'), ('some', 'no'), ('causes', 'forbids'), ('0.5', '1.5', '2.5'))
+
+
+def sibling_text(sim, text, n=None):
+    """A near-duplicate of a text: one to three tokens replaced by tokens of the same kind. Two such
+    texts collide in any cache keyed by something lossy (printed forms, shapes, token kinds)."""
+    toks = tokenize(text)
+    idx = [i for i, t in enumerate(toks) if any(t in grp for grp in SIBLINGS)]
+    if not idx:
+        return text
+    for _ in range(n if n is not None else sim.randint('nsib', 1, 3)):
+        i = sim.pick('sibpos', idx)
+        grp = next(g for g in SIBLINGS if toks[i] in g)
+        alt = [t for t in grp if t != toks[i]]
+        toks[i] = sim.pick('sibtok', alt)
+    return ' '.join(toks)
 
 
 def mutate_tokens(sim, text, nmut=None):
